@@ -51,9 +51,10 @@ Tick == /\ E.ev = "Tick"
                                   nStartSched |-> NMatch(E.dags[n].def.start, E.bd)]]]))
         /\ started' = started \cup {<<n, E.m>> : n \in {x \in DOMAIN E.dags : E.dags[x].starts >= 1}}
         /\ UNCHANGED <<nscen, c>>
+Hung == /\ E.ev = "Hung" /\ viol' = viol \cup {"C09_TickNeverReturns"} /\ UNCHANGED <<started, nscen, c>>
 End == /\ E.ev = "End" /\ UNCHANGED <<viol, started, nscen, c>>
        /\ PrintT("VERDICT " \o ToJson([scen |-> E.scen, viol |-> viol, delayed |-> c.delayed]))
-Next == l <= Len(Trace) /\ l' = l + 1 /\ (Reset \/ Tick \/ End)
+Next == l <= Len(Trace) /\ l' = l + 1 /\ (Reset \/ Tick \/ Hung \/ End)
 Spec == Init /\ [][Next]_<<l, viol, started, nscen, c>>
 Emit == (l = Len(Trace) + 1) => PrintT("CONSUMED " \o ToString(Len(Trace)) \o " scenarios " \o ToString(nscen))
 =============================================================================
